@@ -212,6 +212,30 @@ def run_config(ctx, rep, cfg, F, only_acc=None):
                 rep.bad("R11.3", short, "root", "%s must be the view Node(0) on %s; it is %s" % (short, tbl, r[:160]), config=cfg)
             else:
                 rep.ok("R11.3", short, "Node(0)")
+    # identity conversions and Clone of a view keep table and position
+    for short, want in (("<TrieView as AsView>::view", "TrieView{table: self.table, loc: self.loc}"),
+                        ("<TrieViewMut as AsViewMut>::view_mut", "TrieViewMut{table: self.table, loc: self.loc, marker: self.marker}")):
+        if short in F.short:
+            for p in C.complete(ctx.paths(F, short, OPTS)):
+                n += 1
+                got = repr(p.result[1]).replace("?", "")
+                if got != want:
+                    rep.bad("R11.3", short, "not-identity", "%s must hand back the view itself; it returns %s" % (short, got[:160]), config=cfg)
+                else:
+                    rep.ok("R11.3", short, "identity")
+        else:
+            rep.bad("R11.3", short, "missing", "%s not found" % short, kind="unrecognised", config=cfg)
+    short = "<TrieView as Clone>::clone"
+    if short in F.short:
+        for p in C.complete(ctx.paths(F, short, OPTS)):
+            n += 1
+            var, base, idx, pname = position(p)
+            loc = c12.find_loc(p.result[1])
+            r = repr(p.result[1]).replace("?", "")
+            if var is None or loc is None or loc[0] != var or loc[1] != idx or (var == "Virtual" and loc[2] != pname) or "self.table" not in r:
+                rep.bad("R11.3", short, "position", "a cloned view at %s %s must be the same position on the same table; it is %s" % (var, idx, r[:200]), config=cfg)
+            else:
+                rep.ok("R11.3", short, str(var))
     short = "<&TrieViewMut as AsView>::view"
     if short in F.short:
         for p in C.complete(ctx.paths(F, short, OPTS)):
